@@ -76,6 +76,7 @@ static void ctx_install(secp256k1_context *c) {
 static TLS char *g_tok[MAXTOK];
 static TLS int g_ntok;
 static TLS int g_misalign;  /* trailing token "!misalign=K" (K = 1..15): every argument / output block of this call starts K bytes past a 16-byte boundary (its END still coincides with the end of the heap block) */
+static TLS unsigned char *g_in_ptr[MAXTOK], *g_in_copy[MAXTOK]; static TLS size_t g_in_len[MAXTOK]; static TLS int g_in_idx[MAXTOK], g_nin; /* input-immutability monitor: every parsed input block and a private copy of it */
 static TLS int g_alias;     /* trailing token "!alias": the op passes its output pointer equal to one of its inputs (in-place use) */
 static TLS void *g_tmp[MAXTOK * 2];
 static TLS int g_ntmp;
@@ -106,6 +107,7 @@ static unsigned char *A_blob(int i, size_t *len) {
         p[k] = (unsigned char)(a * 16 + b);
     }
     if (len) *len = n / 2;
+    if (n / 2 > 0 && g_nin < MAXTOK) { g_in_ptr[g_nin] = p; g_in_len[g_nin] = n / 2; g_in_idx[g_nin] = i; g_in_copy[g_nin] = (unsigned char *)xmalloc(n / 2); memcpy(g_in_copy[g_nin], p, n / 2); g_nin++; }
     return p;
 }
 /* blob that must have exactly n bytes (or be NULL when nullable) */
@@ -170,13 +172,13 @@ static const opent OPS[] = {
 static void on_alarm(int sig) { (void)sig; { static const char m[] = "TIMEOUT\n"; if (write(1, m, sizeof m - 1)) {} } _exit(3); }
 
 static void reply(const char *fmt, const char *a, long i1, long i2, long i3, long i4) {
-    size_t need = (g_out ? g_outlen : 0) + strlen(a) + 160;
+    size_t need = (g_out ? g_outlen : 0) + strlen(a) + 512;
     if (need > g_replycap) { g_replycap = need * 2; g_reply = (char *)realloc(g_reply, g_replycap); }
     snprintf(g_reply, g_replycap, fmt, a, i1, i2, i3, i4);
 }
 /* executes one command line; the reply (without newline) is left in g_reply. use_static: run with secp256k1_context_static */
 static void vshim_exec_line(char *line, int use_static) {
-    int i; const opent *o; char *p = line; long ill0, err0, m0, l0;
+    int i; const opent *o; char *p = line; long ill0, err0, m0, l0; char modbuf[256]; int modlen;
     g_ntok = 0; g_ntmp = 0; g_outlen = 0; g_bad = 0; if (g_out) g_out[0] = 0;
     while (*p) {
         while (*p == ' ' || *p == '\t' || *p == '\n' || *p == '\r') *p++ = 0;
@@ -202,12 +204,20 @@ static void vshim_exec_line(char *line, int use_static) {
     if (!o->name) { reply("ERR unknown op %s", g_tok[0], 0, 0, 0, 0); return; }
     for (i = 1; i < g_ntok; i++) g_tok[i - 1] = g_tok[i];
     g_ntok--;
-    ill0 = g_ill; err0 = g_err; m0 = g_mallocs; l0 = g_live; g_ill_msg[0] = 0;
+    ill0 = g_ill; err0 = g_err; m0 = g_mallocs; l0 = g_live; g_ill_msg[0] = 0; g_nin = 0;
     o->fn();
+    /* which input blocks did the call change? (reported as mod=i,j,..; the runner knows the documented in/out arguments) */
+    modlen = 0; modbuf[0] = 0;
+    for (i = 0; i < g_nin; i++) {
+        if (!g_alias && memcmp(g_in_ptr[i], g_in_copy[i], g_in_len[i]) != 0 && modlen < (int)sizeof modbuf - 16) modlen += snprintf(modbuf + modlen, sizeof modbuf - modlen, "%s%d", modlen ? "," : " mod=", g_in_idx[i]);
+        free(g_in_copy[i]);
+    }
+    g_nin = 0;
     for (i = 0; i < g_ntmp; i++) free(g_tmp[i]);
     g_ntmp = 0;
     if (g_bad) { reply("ERR %s", g_badmsg, 0, 0, 0, 0); return; }
     reply("ok%s | ill=%ld err=%ld m=%ld live=%ld", g_out ? g_out : "", g_ill - ill0, g_err - err0, g_mallocs - m0, g_live - l0);
+    if (modlen) strcat(g_reply, modbuf);
 }
 
 #include "vshim_modes.h"
